@@ -57,7 +57,11 @@ func vecOf(id uint32, dim int) []float32 {
 	return v
 }
 
-func mkVectorTarget(kind int, r *rand.Rand) target {
+// the contended phase judges no answers, so HNSW can run with an ordinary M there
+func mkContendedVectorTarget(kind int, r *rand.Rand) target { return mkVectorTargetM(kind, r, 8) }
+func mkVectorTarget(kind int, r *rand.Rand) target          { return mkVectorTargetM(kind, r, 2048) }
+
+func mkVectorTargetM(kind int, r *rand.Rand, hnswM int) target {
 	dim := 4
 	var idx comet.VectorIndex
 	name := kindNames[kind]
@@ -73,7 +77,7 @@ func mkVectorTarget(kind int, r *rand.Rand) target {
 	default:
 		// M far above the number of vectors a run adds: the visibility clause is only decidable for HNSW in
 		// the regime where its search is exhaustive (C12: at most 2*M resident vectors, ef at least that)
-		idx, _ = comet.NewHNSWIndex(dim, comet.Euclidean, 2048, 5000, 5000)
+		idx, _ = comet.NewHNSWIndex(dim, comet.Euclidean, hnswM, 5000, 5000)
 		name = "hnsw"
 	}
 	if kind >= 1 && kind <= 3 {
@@ -327,6 +331,98 @@ func stress(tg target, kindCode int, r *rand.Rand, goroutines, opsPer int, check
 	t.Emit(c, "stress."+tg.name, fmt.Sprintf("stress.goroutines_%d", goroutines))
 }
 
+// contend: every goroutine works on the SAME ids at the same instant (removals of one id racing each
+// other, re-adds of one id racing each other, searches in between). Whether each call succeeds is the
+// business of the sequential properties; here only "no deadlock, no panic" is judged: each round must
+// come back, and afterwards the target must still accept a write and answer a search.
+func contend(tg target, kindCode int, budget time.Duration, goroutines int, t *Trace) {
+	var panics int64
+	guard := func(f func()) {
+		defer func() {
+			if recover() != nil {
+				atomic.AddInt64(&panics, 1)
+			}
+		}()
+		f()
+	}
+	lr := rand.New(rand.NewSource(int64(kindCode) + 77))
+	// one round: all goroutines released at once on the same id; false = it did not come back in 30 s
+	round := func(f func(g int)) bool {
+		start := make(chan struct{})
+		var ready, wg sync.WaitGroup
+		for g := 0; g < goroutines; g++ {
+			ready.Add(1)
+			wg.Add(1)
+			go func(g int) {
+				defer wg.Done()
+				ready.Done()
+				<-start
+				guard(func() { f(g) })
+			}(g)
+		}
+		ready.Wait()
+		close(start)
+		fin := make(chan struct{})
+		go func() { wg.Wait(); close(fin) }()
+		select {
+		case <-fin:
+			return true
+		case <-time.After(30 * time.Second):
+			return false // the goroutines of the stuck round are abandoned
+		}
+	}
+	stuck := 0
+	nids := 0
+	base := uint32(500000)
+	t0 := time.Now()
+	for time.Since(t0) < budget && stuck == 0 {
+		id := base + uint32(nids)
+		nids++
+		if !round(func(g int) {
+			if g == 0 {
+				tg.add(id, lr)
+			}
+		}) {
+			stuck = 1
+			break
+		}
+		if !round(func(g int) {
+			if g%4 == 3 {
+				tg.search()
+			} else {
+				tg.remove(id)
+			}
+		}) {
+			stuck = 1
+			break
+		}
+		if nids%3 == 0 {
+			if !round(func(g int) {
+				if g%4 == 3 {
+					tg.search()
+				} else {
+					tg.add(id, rand.New(rand.NewSource(int64(g))))
+				}
+			}) {
+				stuck = 1
+			}
+		}
+	}
+	if stuck == 0 {
+		// afterwards the target still accepts a write and answers a search
+		if !round(func(g int) {
+			if g == 0 {
+				tg.add(base+uint32(nids)+1, lr)
+				tg.search()
+			}
+		}) {
+			stuck = 1
+		}
+	}
+	t.Emit(NewCase(1103).N(kindCode).N(nids).N(goroutines).N(stuck).I(panics), "contended."+tg.name)
+	t.StatN("conc.contended_same_id_rounds."+tg.name, nids)
+}
+
 // readPhase: no writers; 8 goroutines repeat 16 different queries and every answer must equal the
 // answer the same query got when run alone beforehand.
 func readPhase(tg target, kindCode int, r *rand.Rand, iters int, t *Trace) {
@@ -362,8 +458,9 @@ func readPhase(tg target, kindCode int, r *rand.Rand, iters int, t *Trace) {
 func genC11(r *rand.Rand, t *Trace, thorough bool) {
 	rounds := 1
 	opsPer := 40
+	nContend := 2500 * time.Millisecond
 	if thorough {
-		rounds, opsPer = 8, 200
+		rounds, opsPer, nContend = 8, 200, 6*time.Second
 	}
 	work := os.Getenv("VERIF_WORK")
 	if work == "" {
@@ -375,10 +472,14 @@ func genC11(r *rand.Rand, t *Trace, thorough bool) {
 			tg := mkVectorTarget(kind, r)
 			stress(tg, kind, r, gs[r.Intn(len(gs))], opsPer, true, t)
 			readPhase(tg, kind, r, opsPer, t)
+			contend(mkContendedVectorTarget(kind, r), kind, nContend, 16, t)
 		}
 		stress(mkTextTarget(), 5, r, gs[r.Intn(len(gs))], opsPer, true, t)
+		contend(mkTextTarget(), 5, nContend, 16, t)
 		stress(mkMetaTarget(), 6, r, gs[r.Intn(len(gs))], opsPer, true, t)
+		contend(mkMetaTarget(), 6, nContend, 16, t)
 		stress(mkHybridTarget(), 7, r, gs[r.Intn(len(gs))], opsPer, true, t)
+		contend(mkHybridTarget(), 7, nContend, 16, t)
 		storeCaseCounter++
 		d1 := filepath.Join(work, "stores", fmt.Sprintf("x%d_%d", os.Getpid(), storeCaseCounter))
 		os.RemoveAll(d1)
